@@ -5,8 +5,12 @@ import common as C
 import suite as S
 
 
+STATS = {}
+
+
 def correspond(prop, prefixes):
     diffs, n = [], 0
+    STATS.clear()
     for pref, bdir, bname in prefixes:
         C.run_driver("opt", pref + ".ops.jsonl", pref + ".model.jsonl")
         ops = S.load_lines(pref + ".ops.jsonl")
@@ -16,6 +20,11 @@ def correspond(prop, prefixes):
                 continue
             n += 1
             impl = o["impl"]
+            if o["call"]["kind"] in ("step", "solve") and "tb_in_call" in m:
+                STATS["step_calls"] = STATS.get("step_calls", 0) + 1
+                if m["tb_in_call"]:
+                    # hypothesis of C10_disabled_knob_never_changed evaluated by the driver on this call
+                    STATS["step_calls_take_best_row_logged_in_call"] = STATS.get("step_calls_take_best_row_logged_in_call", 0) + 1
             d = None
             if "bad-op" in m:
                 d = ("bad-op", None, m["bad-op"])
